@@ -19,13 +19,13 @@ def applyOverlaysF (n : Nat) (B : Mode → Color → Color → Color) (V bbox : 
     applyOverlaysF n B V bbox x y shape alpha
       (fzState n (applySource (B e.mode) st (pasteAt V bbox x y e.color white) (shape * se) (alpha * se * e.opacity) false)) es
 
-def applyStrokeFxF (n : Nat) (B : Mode → Color → Color → Color) (V bbox : Rect) (x y : Int) (st : PState) :
+def applyStrokeFxF (n : Nat) (B : Mode → Color → Color → Color) (V bbox : Rect) (x y : Int) (lop : Rat) (st : PState) :
     List StrokeFx → PState
   | [] => st
   | s :: ss =>
     let sh := pasteAt V bbox x y (s.shape V) 0
-    applyStrokeFxF n B V bbox x y
-      (fzState n (applySource (B s.mode) st (pasteAt V bbox x y s.color black) sh (sh * s.opacity) false)) ss
+    applyStrokeFxF n B V bbox x y lop
+      (fzState n (applySource (B s.mode) st (pasteAt V bbox x y s.color black) sh (sh * (s.opacity * lop)) false)) ss
 
 def finishFxF (n : Nat) (B : Mode → Color → Color → Color) (force : Bool) (V : Rect) (x y : Int) (st : PState) (pr : Props)
     (fx : Fx) (color : Color) (shape alpha : Rat) : PState :=
@@ -33,7 +33,7 @@ def finishFxF (n : Nat) (B : Mode → Color → Color → Color) (force : Bool) 
   let shape1 := shape * m.1
   let alpha1 := alpha * (m.1 * m.2 * pr.opacity)
   let st1 := fzState n (applySource (B pr.mode) st color (shape1 * pr.fill) (alpha1 * pr.fill) pr.knockout)
-  applyStrokeFxF n B V pr.bbox x y (applyOverlaysF n B V pr.bbox x y shape1 alpha1 st1 fx.overlays) fx.strokeFx
+  applyStrokeFxF n B V pr.bbox x y pr.opacity (applyOverlaysF n B V pr.bbox x y shape1 alpha1 st1 fx.overlays) fx.strokeFx
 
 def strokeObjectF (n : Nat) (B : Mode → Color → Color → Color) (V : Rect) (x y : Int) (color : Color) (alpha : Rat) :
     Option VStroke → Color
